@@ -29,7 +29,11 @@ theorem effect_keeps_t (s : TriState K) (op : TriOp K) (v' : List (V3 K)) (t' : 
   | refine it => exact absurd rfl hop.2.1
   | rmFree => exact absurd rfl hop.2.2
   | normalize => simp only [triEffect, Option.some.injEq, Prod.mk.injEq] at h; exact h.2.symm
-  | smooth n => simp only [triEffect, Option.some.injEq, Prod.mk.injEq] at h; exact h.2.symm
+  | smooth n =>
+    simp only [triEffect] at h
+    split at h
+    · exact absurd h (by simp)
+    · simp only [Option.some.injEq, Prod.mk.injEq] at h; exact h.2.symm
   | offset d =>
     simp only [triEffect] at h
     split at h
